@@ -161,6 +161,10 @@ def waitSpec (c : Case) (o : Json) : Except String (Bool × String) := do
         if prev == some 1 && !(condMet c.cond r ob) && !(c.cond == .allCurrent && uidChanged r ob && condMet c.cond r { ob with uid := "" }) &&
            evs.map (·.2) != [0] then
           return (false, s!"{id}: regressed but not reported pending")
+        -- failed → neither failed any more nor reconciled (Terminating, Unknown, NotFound in an apply phase, InProgress…) ⇒ pending
+        -- again: it is one of the objects the deadline's Timeout is for (theorem C06.failed_then_unfailed_pending)
+        if prev == some 4 && !(condMet c.cond r ob) && !(uidChanged r ob) && ob.status != .failed && evs.map (·.2) != [0] then
+          return (false, s!"{id}: no longer failed and not reconciled, but not reported pending again")
         if prev == some 0 && condMet c.cond r ob && evs.map (·.2) != [1] then
           return (false, s!"{id}: pending and condition met, but not reported reconciled")
       hist := hist ++ evs
